@@ -1,2 +1,70 @@
-(** C12 — statements only; see Proofs/. *)
-From RRSS Require Import Base.Outcome.
+(** C12 — Tokens carry their exact spelling and true source position.
+    Statements only; proofs in Proofs/LexPos.v, LexSpec.v, LexStream.v, LexCorollaries.v. *)
+From Coq Require Import List ZArith NArith Bool Sorting.Sorted.
+From RRSS Require Import Base.Outcome Base.Chars Front.Ast Front.Token Front.Lexer.
+From RRSS Require Import Proofs.LexPos Proofs.LexSpec Proofs.LexStream Proofs.LexCorollaries.
+Import ListNotations.
+Open Scope N_scope.
+
+(** For every source shorter than 4 GiB (columns are u32 in the implementation; a longer source
+    panics there and in the model), in both build profiles, the lexer returns a token list, and the
+    source splits as  gap, token, gap, token, ..., gap  where every gap consists only of ignorable
+    characters (whitespace other than the line feed, ASCII punctuation other than _ and ', stray
+    apostrophes) and every token [t], found after the prefix [a] of the source, has
+    [tstart t = byte_len a] and [trange t = tok_range a (tspell t) (tid t)]:
+    start = (line, byte column) of its first byte, end = position just past its last byte on that
+    byte's line; a Newline token ends at (line, column + 1).  Staged 's / 're suffix tokens and
+    tokens after multi-line strings and comments are included: they are ordinary elements of the stream. *)
+Theorem C12_lex_stream :
+  forall prof src, byte_len src < u32_limit ->
+    exists pts, lex prof src = Ok pts /\ stream [] src (map pt_tok pts).
+Proof. exact lex_stream. Qed.
+
+(** every token is a non-empty slice of the source, at its recorded offset, with its true range *)
+Theorem C12_tokens_are_slices :
+  forall pre s ts, stream pre s ts -> Forall (tok_in (pre ++ s)) ts.
+Proof. exact stream_tokens. Qed.
+
+(** tokens come in source order and do not overlap *)
+Theorem C12_tokens_ordered :
+  forall pre s ts, stream pre s ts -> StronglySorted tok_before ts.
+Proof. exact stream_sorted. Qed.
+
+(** the source is exactly gaps and spellings, alternating; gaps are ignorable (so no line feed is ever skipped) *)
+Theorem C12_gaps_ignorable :
+  forall pre s ts, stream pre s ts ->
+    exists gaps, length gaps = S (length ts) /\ Forall (fun g => forallb ignorable g = true) gaps /\
+      s = concat (map (fun p => fst p ++ tspell (snd p)) (combine gaps ts)) ++ last gaps [].
+Proof. exact stream_concat. Qed.
+
+Theorem C12_ignorable_is_not_newline : forall c, ignorable c = true -> c <> 10.
+Proof. exact ignorable_not_nl. Qed.
+
+(** what [pos_at] (used by [tok_range]) means: 1 + the number of preceding line feeds, and the offset just
+    past the last of them *)
+Theorem C12_line_is_true_line : forall pre, fst (pos_at pre) = 1 + count_nl pre.
+Proof. exact pos_at_line. Qed.
+
+Theorem C12_line_start_first_line : forall pre, no_nl pre = true -> snd (pos_at pre) = 0.
+Proof. exact pos_at_line_start_first. Qed.
+
+Theorem C12_line_start_after_break : forall a b, no_nl b = true -> snd (pos_at (a ++ 10 :: b)) = byte_len a + 1.
+Proof. exact pos_at_line_start_after. Qed.
+
+(** Non-vacuity: a two-line string literal followed by a suffix and a word on its last line. *)
+Example C12_example :
+  let src := lit "say ""a" ++ [10] ++ lit "b""'s x" in
+  byte_len src < u32_limit /\
+  match lex Debug src with
+  | Ok pts => map (fun p => (tstart (pt_tok p), trange (pt_tok p))) pts =
+      [(0, mkRange (mkLoc 1 0) (mkLoc 1 3)); (4, mkRange (mkLoc 1 4) (mkLoc 2 2));
+       (9, mkRange (mkLoc 2 2) (mkLoc 2 4)); (12, mkRange (mkLoc 2 5) (mkLoc 2 6))]
+  | _ => False
+  end.
+Proof. vm_compute. split; reflexivity. Qed.
+
+Print Assumptions C12_lex_stream.
+Print Assumptions C12_tokens_are_slices.
+Print Assumptions C12_tokens_ordered.
+Print Assumptions C12_gaps_ignorable.
+Print Assumptions C12_line_is_true_line.
